@@ -1039,6 +1039,7 @@ func (agg *aggregate) Process(ctx context.Context, man gdbi.Manager, in gdbi.InP
 						fval, err := cast.ToFloat64E(val)
 						if err != nil {
 							outErr = fmt.Errorf("histogram aggregation: can't convert %v to float64", val)
+							continue
 						}
 						fieldValues = append(fieldValues, fval)
 						if c > maxValues {
@@ -1081,6 +1082,7 @@ func (agg *aggregate) Process(ctx context.Context, man gdbi.Manager, in gdbi.InP
 					fval, err := cast.ToFloat64E(val)
 					if err != nil {
 						outErr = fmt.Errorf("percentile aggregation: can't convert %v to float64", val)
+						continue
 					}
 					td.Add(fval, 1)
 				}
